@@ -66,6 +66,10 @@ class Con(T):
     def key(self):
         return ("Con", self.red_op, self.bin_op, self.reduced_vars, tuple(k(t) for t in self.terms))
 
+    def _alpha_convert(self, alpha_subs):
+        # the opaque leaves mention no bound variable: renaming changes the names of the reduced variables only
+        return self.red_op, self.bin_op, frozenset(alpha_subs.get(v, v) for v in self.reduced_vars), self.terms
+
     def reduce(self, op, vs):
         return ("reduce", self.key(), op, frozenset(vs))
 
@@ -92,7 +96,21 @@ class ConCls:
 
 
 CON = ConCls()
-NS = dict(ops=OpsNS, Contraction=CON, Number=NumberCls, isinstance=core.sisinstance, enumerate=enumerate, tuple=tuple, frozenset=frozenset, any=core.sany, DISTRIBUTIVE_OPS=DIST)
+class _Interp:
+    """gensym model for the opaque cases: the 'fresh' name is the old one (freshness itself is contract UnfoldSharedBinders)"""
+
+    @staticmethod
+    def gensym(prefix):
+        return prefix.replace("__BOUND", "")
+
+
+class _Reflect:
+    @staticmethod
+    def interpret(cls, *args):
+        return cls(*args)
+
+
+NS = dict(interpreter=_Interp, reflect=_Reflect, len=len, ops=OpsNS, Contraction=CON, Number=NumberCls, isinstance=core.sisinstance, enumerate=enumerate, tuple=tuple, frozenset=frozenset, any=core.sany, DISTRIBUTIVE_OPS=DIST)
 
 V1, V2 = frozenset(["i"]), frozenset(["j"])
 
